@@ -203,7 +203,7 @@ pub fn exec(plan: &ExecPlan) -> Result<ExecOut, String> {
                 }
                 if let Some((at, ns)) = gap {
                     if i == at {
-                        for _ in 0..4000 {
+                        for _ in 0..1000 {
                             if p.stats().workers.iter().all(|w| w.0 == 0) {
                                 break;
                             }
